@@ -101,6 +101,9 @@ func (t *textScannerLexer) Next() (Token, error) {
 	text := t.scanner.TokenText()
 	pos := Position(t.scanner.Position)
 	pos.Filename = t.filename
+	if pos.Line == 0 { // text/scanner leaves the position of the EOF of an empty input unset (0:0).
+		pos.Line, pos.Column = 1, 1
+	}
 	if t.err != nil {
 		return Token{}, t.err
 	}
